@@ -935,6 +935,10 @@ impl Family for C20 {
         s
     }
 
+    fn realtime(case: &str) -> bool {
+        parse(case).flavor != 0
+    }
+
     fn run(case: &str) -> Outcome {
         let cfg = parse(case);
         let r = run_child(case, Duration::from_secs(90));
